@@ -20,7 +20,9 @@ def run(ctx):
         "the keyword set is read off the generated parser.c (ACCEPT_TOKEN in ts_lex / ts_lex_keywords); tokens accepted by neither "
         "function are assigned by consistency over the whole string set (one assignment per token set, reported as `unclassified`)",
     ]
-    ctx.assumptions += ["tokens never match the empty string or white space; lexical precedence only as token(prec(p, …)) around a whole rule",
+    ctx.assumptions += ["tokens never match the empty string or white space; lexical precedence as token(prec(p, …)) around a whole rule, on the "
+                        "alternatives of a top-level choice (lexScanP) or on an inner branch of a choice / optional / repeat (family N, lexScanN: "
+                        "correspondence only, no theorem ties lexScanN to lexScan yet)",
                         "token-soup grammar: every token is valid in every parse state; only error-free parses are compared leaf by leaf, "
                         "and `has_error` must equal `the reference finds no token somewhere`"]
     ctx.regen()
@@ -92,7 +94,11 @@ def run(ctx):
             s = kv["corr"].split(" ")[-1]
             ctx.violation("corr", "lexScan model and the generated lexer disagree on token set %s, string %s (%s strings)" % (sid, s, kv.get("corrbad")),
                           {"case": cid, "spec": spec + " " + s, "result": kv, "correspondence": "TsVerif.C14.lexScan vs generated ts_lex/ts_lex_keywords"},
-                          fingerprint={"set": spec, "corr": "lexScan"}, found_input=False)
+                          fingerprint={"set": spec, "corr": "lexScan"},
+                          # round 11b: for a nested-precedence set (family N…, a `Z(` below the top of a token) the payload IS a
+                          # concrete failing input: token set + string on which the generated lexer leaves the per-character
+                          # precedence cut-off (lexScanN); `--replay` re-runs exactly that case
+                          found_input=any(("Z(" in t.split(",", 2)[-1]) and not t.split(",", 2)[-1].startswith("Z(") for t in spec.split(";")[1:]))
         j = kv.get("judge", "")
         if j != "ok":
             parts = j.split(" ")
@@ -114,6 +120,13 @@ def run(ctx):
         ctx.coverage["token_sets_with_8_or_more_one_character_tokens"] = big
         ctx.oblige("cover:some-generated-lexers-use-ADVANCE_MAP", big > 0,
                    "%d token sets with >= 8 one-character tokens; parser.c text: %d lex states in %d token sets use ADVANCE_MAP" % (big, amap_states, amap_sets))
+    def nested_spec(sp):
+        return any(("Z(" in t.split(",", 2)[-1]) and not t.split(",", 2)[-1].startswith("Z(") for t in sp.split(";")[1:])
+    nested_sets = sum(1 for sid, sp in sets.items() if sp.startswith("w") and nested_spec(sp))
+    ctx.coverage["token_sets_with_precedence_on_an_inner_branch"] = nested_sets
+    if not ctx.replay:
+        # round 11b: the family that exercises NfaCursor::group_transitions' precedence comparison must be present
+        ctx.oblige("cover:token-sets-with-precedence-on-an-inner-rejoining-branch", nested_sets >= 10, "%d such token sets (lexScanN)" % nested_sets)
     ctx.oblige("gen:every-well-formed-token-set-is-accepted", rejected_sets == 0, "%d sets rejected" % rejected_sets)
     ctx.coverage.update({
         "evaluations": tot["strings"], "distinct_nontrivial": tot["nontrivial"],
